@@ -164,3 +164,115 @@ Proof.
   assert (rtok (g_r s) = 0) by (unfold rtok, r_idle in *; destruct (is_read _); [|reflexivity]; destruct (r_pc (g_r s)); try discriminate; reflexivity).
   lia.
 Qed.
+
+(* ------------------------------------------------------------------ no lost-wake-up deadlock *)
+Lemma wstep_none_tok : forall h t, wstep h t = None -> wtok t = 0.
+Proof.
+  intros h t H. unfold wtok. destruct (w_pc t) eqn:E; try reflexivity.
+  unfold wstep in H. rewrite E in H. discriminate.
+Qed.
+
+Lemma rstep_none_blocked : forall h t, rstep h t = None -> r_prog t <> [] ->
+  r_pc t = RCall /\ exists c, hsem h = Some c /\ c <= 0.
+Proof.
+  intros h t H Hne.
+  destruct (r_pc t) eqn:Epc; unfold rstep in H; rewrite Epc in H;
+    unfold rgo, rreturn, r_fail, rc_fail, copy_done, act_wait, act_rd_rpt, act_rc_rd_rpt in H;
+    repeat match type of H with
+           | context [match ?x with _ => _ end] => destruct x eqn:?
+           end;
+    try discriminate; try congruence.
+  all: split; [reflexivity|]; eexists; split; [reflexivity|lia].
+Qed.
+
+(* if the reader is blocked in sem_wait and the writer has nothing left to do, nothing published is unread:
+   the two threads cannot get stuck with a chunk in the ring (reader programs without peek) *)
+Theorem all_no_deadlock : forall h pw pr sched, wf_ring h -> Forall (fun c => is_peek c = false) pr ->
+  let s := exec sched (init h pw pr) in
+  r_prog (g_r s) <> [] -> step TR s = None -> step TW s = None ->
+  length (g_got s) = length (g_pub s).
+Proof.
+  intros h pw pr sched Hwf Hnp s Hne Hr Hw.
+  assert (HI : Inv s) by (apply all_inv; assumption).
+  assert (HT : TokInv s).
+  { apply tok_exec; [apply inv_init; assumption | | exact Hnp].
+    unfold TokInv, init; cbn [g_sh g_w g_r g_pub g_got length]. destruct Hwf as (_ & _ & _ & _ & Hs). unfold sem_ok in Hs.
+    destruct (hsem h); [|exact I]. unfold rtok, wtok; cbn [rthread0 wthread0 r_pc w_pc]. destruct (is_read _); lia. }
+  unfold step in Hr, Hw.
+  destruct (rstep (g_sh s) (g_r s)) as [r|] eqn:Er.
+  { destruct (apply_ghost (s_gh r) (g_pub s) (g_got s)); discriminate. }
+  destruct (wstep (g_sh s) (g_w s)) as [r|] eqn:Ew.
+  { destruct (apply_ghost (s_gh r) (g_pub s) (g_got s)); discriminate. }
+  destruct (rstep_none_blocked _ _ Er Hne) as (Epc & c & Es & Hc).
+  pose proof (wstep_none_tok _ _ Ew) as Hwt.
+  unfold TokInv in HT. rewrite Es in HT. rewrite Hwt in HT.
+  assert (Hrt : rtok (g_r s) = 0) by (unfold rtok; rewrite Epc; destruct (is_read _); reflexivity).
+  rewrite Hrt in HT.
+  destruct HI as (RP & q & pre & Hpub & Hgot & _).
+  pose proof (forall2_len _ _ _ _ _ Hgot) as Hl.
+  assert (Hle : (length (g_got s) <= length (g_pub s))%nat).
+  { rewrite Hpub, app_length. replace (length (g_got s)) with (length pre) by (symmetry; exact Hl). lia. }
+  lia.
+Qed.
+
+(* ------------------------------------------------------------------ refusals are exact *)
+Definition unread (s : state) : list chunk := skipn (length (g_got s)) (g_pub s).
+
+(* qb_rb_space_free as a function of the chunks really in the ring *)
+Definition room_bytes (W : Z) (q : list chunk) : Z :=
+  RB_SIZEOF_WORD * (if used q =? 0 then W else W - used q - 1).
+
+(* the admission test of a write is evaluated (step WRdRpt) on the exact content of the ring at that moment: the
+   write is refused exactly when the unread chunks leave less than len + MARGIN bytes (counting the gap word) *)
+Theorem refusal_exact : forall s w1 r, Inv s -> w_pc (g_w s) = WRdRpt w1 -> wstep (g_sh s) (g_w s) = Some r ->
+  (s_ret r = Some (- RB_EAGAIN, []) <->
+   room_bytes (hW (g_sh s)) (unread s) < zlen (wdata (g_w s)) + RB_CHUNK_MARGIN).
+Proof.
+  intros s w1 r (RP & q & pre & Hpub & Hgot & HC & Hwi & _) Epc Hst.
+  assert (Hun : unread s = q).
+  { unfold unread. pose proof (forall2_len _ _ _ _ _ Hgot) as Hl.
+    replace (length (g_got s)) with (length pre) by (symmetry; exact Hl).
+    rewrite Hpub. rewrite skipn_app. rewrite skipn_all. rewrite Nat.sub_diag. reflexivity. }
+  rewrite Hun.
+  destruct HC as [HW H32 Hr Hw Hcap Hpend Hq].
+  unfold winv in Hwi. unfold w_win in Hcap. unfold w_pend in Hw. rewrite Epc in *. subst w1.
+  pose proof (used_nonneg q) as Huq.
+  unfold wstep in Hst. rewrite Epc in Hst.
+  assert (Hfree : free_words (hW (g_sh s)) (hwpt (g_sh s)) (hrpt (g_sh s)) * RB_SIZEOF_WORD = room_bytes (hW (g_sh s)) q).
+  { rewrite Hw, Hr. replace (RP + used q + 0) with (RP + used q) by lia.
+    rewrite free_words_logical by lia. unfold room_bytes. lia. }
+  rewrite Hfree in Hst.
+  destruct (room_bytes (hW (g_sh s)) q <? zlen (wdata (g_w s)) + RB_CHUNK_MARGIN) eqn:E;
+    inversion Hst; subst r; cbn [s_ret]; split; intro H; try lia; try reflexivity; try discriminate.
+Qed.
+
+(* the reader's emptiness verdict is never spurious: when a published chunk is unread, the pointer test and the
+   marker test of read / peek / reclaim both pass (the call goes on to the size word) *)
+Theorem no_spurious_empty : forall s r, Inv s -> unread s <> [] -> rstep (g_sh s) (g_r s) = Some r ->
+  (forall rp, r_pc (g_r s) = RRdWpt rp -> r_pc (s_t r) = RRdMagic rp /\ s_ret r = None) /\
+  (forall rp, r_pc (g_r s) = RRdMagic rp -> r_pc (s_t r) = RRdSize rp /\ s_ret r = None) /\
+  (forall rp, r_pc (g_r s) = RcRdWpt rp -> r_pc (s_t r) = RcRdMagic rp /\ s_ret r = None) /\
+  (forall rp, r_pc (g_r s) = RcRdMagic rp -> r_pc (s_t r) = RcRdSize1 rp /\ s_ret r = None).
+Proof.
+  intros s r (RP & q & pre & Hpub & Hgot & HC & Hwi & (Hh & Hrd & Hpc) & _) Hne Hst.
+  assert (Hun : unread s = q).
+  { unfold unread. pose proof (forall2_len _ _ _ _ _ Hgot) as Hl.
+    replace (length (g_got s)) with (length pre) by (symmetry; exact Hl).
+    rewrite Hpub. rewrite skipn_app. rewrite skipn_all. rewrite Nat.sub_diag. reflexivity. }
+  rewrite Hun in Hne.
+  destruct HC as [HW H32 Hr Hw Hcap Hpend Hq].
+  destruct q as [|c q0]; [exfalso; apply Hne; reflexivity|].
+  pose proof (used_cons_ge2 c q0) as Hu2.
+  assert (Hdiff : (RP mod hW (g_sh s) =? hwpt (g_sh s)) = false).
+  { apply Z.eqb_neq. intro E. rewrite Hw in E. symmetry in E.
+    replace (RP + used (c :: q0) + w_pend (g_w s)) with (RP + (used (c :: q0) + w_pend (g_w s))) in E by lia.
+    cbn [used] in *. apply mod_neq_window in E; [contradiction | lia | lia]. }
+  assert (Hmag : r_kill (g_r s) = false ->
+                 (ldw (hmem (g_sh s)) ((RP mod hW (g_sh s) + 1) mod hW (g_sh s)) =? RB_CHUNK_MAGIC) = true).
+  { intros Hk. rewrite Hk in Hq. unfold q_in_mem in Hq. apply head_of_q in Hq; [|assumption].
+    destruct Hq as (_ & Hm & _). rewrite succ_mod by assumption. lia. }
+  unfold rstep in Hst.
+  (split; [|split; [|split]]); intros rp Epc; rewrite Epc in *; destruct Hpc as (Hrp & _) || (rename Hpc into Hrp); subst rp;
+    unfold r_kill in Hmag; rewrite ?Epc in Hmag; rewrite ?Hdiff, ?(Hmag eq_refl) in Hst;
+    unfold rgo in Hst; inversion Hst; subst r; cbn [s_t s_ret r_at r_pc]; split; reflexivity.
+Qed.
